@@ -277,7 +277,7 @@ def from_cond(fn, c, atomize, prog=None):
     if t == "pat" and prog is not None and c.get("scrut") is not None:
         v_ = str(hir.pat_variant(c["pat"])).split("::")[-1]
         sc_ = hir.peel(c["scrut"])
-        if v_ in ("Some", "Ok", "None", "Err") and (hir.is_call(sc_) or hir.local_of(sc_) is not None) and any(t_ in (sc_.get("ty") or "") for t_ in ("Option<", "Result<")):
+        if v_ in ("Some", "Ok", "None", "Err") and (hir.is_call(sc_) or hir.local_of(sc_) is not None or atomize(fn, sc_) is not None) and any(t_ in (sc_.get("ty") or "") for t_ in ("Option<", "Result<")):
             f_ = someness(fn, sc_, atomize, prog)
             if f_[0] != "atom" or not f_[1].startswith("?"):
                 pos = f_ if v_ in ("Some", "Ok") else neg(f_)
